@@ -8,6 +8,8 @@ out=seeded/SUMMARY.txt
 for d in seeded/C*/; do
   n=$(basename $d); c=${n%%-*}
   [ "$n" = "C13-multiline-take-limit-transcoded" ] && c=C17
+  [ "$n" = "C03-printer-multiline-lines-split-on-lf" ] && c=C09
+  [ "$n" = "C16-close-before-eof" ] && c=C18
   git -C /repo diff --quiet || { echo "/repo is dirty"; exit 2; }
   git -C /repo apply /verif/$d/patch.diff || { echo "$n patch-does-not-apply" >> $out.tmp; continue; }
   line=$(./check $c quick 2>&1 | grep -E "^$c quick|CHECK-BROKEN" | head -1)
